@@ -62,6 +62,11 @@ def run(c, index, tier):
     data_seed = ch.subseed("w", "data")
     rs = numpy.random.RandomState(data_seed)
     X = _data(ch, rs, n, d, style)
+    xdtype = ch.weighted("w", [("float64", 6), ("int64", 1), ("float32", 1)], "xdtype")
+    if xdtype == "int64":
+        X = numpy.round(X * 6).astype(numpy.int64)  # count-like data (ties and duplicates included)
+    elif xdtype == "float32":
+        X = X.astype(numpy.float32)
     strategy = ch.choice("w", ["gain", "distance"], "strategy")
     kmeans0 = ch.weighted("w", [(True, 2), (False, 1)], "kmeans0")
     random_state = ch.choice("w", [None, 0, 5], "rs")
@@ -83,9 +88,9 @@ def run(c, index, tier):
         if src == "train":
             Xb = X[rs.randint(0, n, m)]
         elif src == "new":
-            Xb = _data(ch, rs, m, d, style) * 1.3
+            Xb = (_data(ch, rs, m, d, style) * 1.3).astype(X.dtype)
         else:
-            Xb = numpy.vstack([X[rs.randint(0, n, m - m // 2)], rs.randn(m // 2, d)])
+            Xb = numpy.vstack([X[rs.randint(0, n, m - m // 2)], rs.randn(m // 2, d).astype(X.dtype)]).astype(X.dtype)
         batches.append(numpy.ascontiguousarray(Xb))
     c.scenario = {
         "n": n,
@@ -93,6 +98,7 @@ def run(c, index, tier):
         "n_mod_k": n % k,
         "d": d,
         "style": style,
+        "dtype": xdtype,
         "strategy": strategy,
         "kmeans0": kmeans0,
         "random_state": random_state,
@@ -127,7 +133,7 @@ def run(c, index, tier):
             c,
             seen,
             "fit-raised",
-            (type(r).__name__, U.where_raised(r), strategy, _bucket(n % k)),
+            (type(r).__name__, U.where_raised(r), strategy, _bucket(n % k) if xdtype == "float64" else "dtype=" + xdtype),
             "fit raised %s on a data set with n=%d >= k=%d" % (U.short_exc(r), n, k),
         )
         return
